@@ -201,6 +201,13 @@ CHECKS = {
 }
 
 REASON_TODO = "check not built yet (work in progress; DESIGN.md section 3 describes the planned monitor)"
+REASONS = {
+    "C07": "not claimed: the differential monitor exists (checks/c07.py: generated UB-free C programs, c2m -ei/-eg/-el/-eb vs gcc, plus probes for three "
+           "confirmed c2mir defects) and the technique applies, but on the unchanged tree it still reports mismatches that were not triaged to a root "
+           "cause before the end of the session (a function result that differs between generated code and the interpreter/gcc, and c2mir rejecting a "
+           "division by zero inside an unevaluated constant subexpression); a check that alarms on the unchanged tree may not be registered, and the "
+           "alarms may not be silenced without knowing whether each is a defect - see DESIGN.md section 9",
+}
 
 
 def main():
@@ -242,7 +249,7 @@ def main():
                 "technique": c["technique"],
             })
         else:
-            m["not_applicable"].append({"property_id": p, "reason": REASON_TODO})
+            m["not_applicable"].append({"property_id": p, "reason": REASONS.get(p, REASON_TODO)})
     with open(os.path.join(V, "MANIFEST.json"), "w") as f:
         json.dump(m, f, indent=1)
         f.write("\n")
